@@ -61,6 +61,12 @@ class _Rename:
     def __getattr__(self, k):
         return getattr(self.chk, k)
 
+    def __setattr__(self, k, v):
+        if k in ("chk", "old", "new"):
+            object.__setattr__(self, k, v)
+        else:
+            setattr(self.chk, k, v)
+
     def instance(self, rule, what, fn, loc=None, holds=True, key=None, detail=None):
         rule = rule.replace(self.old, self.new)
         if key:
